@@ -213,6 +213,18 @@ def run(ctx, idx):
                     rec = True
         ctx.ob("C19.a", con, K.rel(lc), n.lineno, rec, "the whole package tree is walked (walk_packages), matching the `lib.` prefix of the selection" if rec else
                "%s lists only the direct children of the package, while the selection admits every module under `lib.`: commands of a nested sub-package are offered only if some earlier program happened to load them" % q)
+    # what is loaded does not depend on what the process imported before: the loader never consults the import cache
+    con = "%s::independent-of-import-history" % lc.key
+    hist = []
+    for f_ in K.helper_closure(idx, lc) + [g_ for g_ in K.helper_closure(idx, init) if g_ is not lc]:
+        for n in own_nodes(f_.node):
+            if isinstance(n, ast.Attribute) and (idx.qualname(f_.module, n, f_) or "") in ("sys.modules", "sys.meta_path", "sys.path_importer_cache"):
+                hist.append((f_, n))
+    if hist:
+        f_, n = hist[0]
+        ctx.violate("C19.a", con, K.rel(f_), n.lineno, "`%s` is consulted while loading: a library (package) that some earlier import already put there is treated as loaded although importing a package does not import its command modules, so which commands a program offers depends on what the process imported before" % K.src(n))
+    else:
+        ctx.hold("C19.a", con, K.rel(lc), lc.node.lineno, "the loader never reads sys.modules: every requested library is walked on every construction", nontrivial=False)
     # ---- b
     cfg = K.cfg_of(idx, init)
     stores = cfg.find("store", lambda n: n.meta.get("attr") == "command_library" and self_attr(n.ast, sn))
